@@ -591,7 +591,9 @@ func (s *Store[K, V]) postDelete(entry *Entry[K, V]) {
 
 // remove entry from cache/policy/timingwheel and add back to pool
 // this method must be used with policy mutex together
-func (s *Store[K, V]) removeEntry(entry *Entry[K, V], reason RemoveReason) {
+// removeEntry reports whether the entry was removed: an expiry is called off
+// when the deadline has been extended in the meantime.
+func (s *Store[K, V]) removeEntry(entry *Entry[K, V], reason RemoveReason) bool {
 	_, index := s.index(entry.key)
 	shard := s.shards[index]
 
@@ -610,7 +612,7 @@ func (s *Store[K, V]) removeEntry(entry *Entry[K, V], reason RemoveReason) {
 			// pending update event (re-schedule, cost change) and all later
 			// events for it would be ignored
 			shard.mu.Unlock()
-			return
+			return false
 		}
 		locked = true
 	}
@@ -638,7 +640,7 @@ func (s *Store[K, V]) removeEntry(entry *Entry[K, V], reason RemoveReason) {
 					reason: reason,
 					shard:  shard,
 				}:
-					return
+					return true
 				default:
 				}
 			}
@@ -672,6 +674,7 @@ func (s *Store[K, V]) removeEntry(entry *Entry[K, V], reason RemoveReason) {
 		kv := s.kvBuilder(entry)
 		_ = s.removalCallback(kv, reason)
 	}
+	return true
 }
 
 func (s *Store[K, V]) drainRead(buffer []ReadBufItem[K, V]) {
@@ -723,13 +726,15 @@ func (s *Store[K, V]) sinkWrite(item WriteBufItem[K, V]) {
 	switch item.code {
 	case NEW:
 		entry.flag.SetRemoved(false)
-		if expire := entry.expire.Load(); expire != 0 {
-			if expire <= s.timerwheel.clock.NowNano() {
-				s.removeEntry(entry, EXPIRED)
+		if expire := entry.expire.Load(); expire != 0 && expire <= s.timerwheel.clock.NowNano() {
+			if s.removeEntry(entry, EXPIRED) {
 				return
-			} else {
-				s.timerwheel.schedule(entry)
 			}
+			// a Set extended the deadline before the removal re-checked it: the
+			// entry stays in the map and has to be tracked like any new entry
+		}
+		if entry.expire.Load() != 0 {
+			s.timerwheel.schedule(entry)
 		}
 		s.policy.sketch.Add(item.hash)
 		entry.policyWeight += item.costChange
@@ -829,7 +834,9 @@ func (s *Store[K, V]) maintenance() {
 					s.policyMu.Unlock()
 					return
 				}
-				s.timerwheel.advance(0, s.removeEntry)
+				s.timerwheel.advance(0, func(entry *Entry[K, V], reason RemoveReason) {
+					s.removeEntry(entry, reason)
+				})
 				s.maintenanceTicker.Reset(time.Second)
 				s.policyMu.Unlock()
 			}
